@@ -4,6 +4,7 @@ import (
 	"fmt"
 	"os"
 	"path/filepath"
+	"strings"
 	"time"
 
 	"verif/harness/core"
@@ -11,6 +12,14 @@ import (
 	"verif/harness/model"
 	"verif/harness/mon"
 )
+
+// cname renders a collection name for logs (long names abbreviated).
+func cname(n string) string {
+	if len(n) > 48 {
+		return fmt.Sprintf("%q...<%d bytes>", n[:8], len(n))
+	}
+	return fmt.Sprintf("%q", n)
+}
 
 // jsonImage is what a value becomes after export + import: numbers are JSON
 // numbers (float64 after decoding), times their RFC 3339 text.
@@ -165,21 +174,24 @@ func RunExportImport(c *core.Ctx) {
 	if !s.CompareCollection("src", "export:source-changed", "ExportCollection") {
 		return
 	}
-	// import under a new name reproduces it
-	got, e = s.run("ImportCollection(\"dst\")", false, func() error { return s.h.DB.ImportCollection("dst", path) })
-	if !s.expect("ImportCollection(\"dst\")", []string{OK}, got, e) {
+	// import under a new name reproduces it; the name is short, dotted, or of a length (around 512 / 1024 bytes)
+	// at which a key prefix built from it leaves room for an id in its allocation
+	dst := gen.Pick(s.r, []string{"dst", "dst", "d.st", "dst:1;d:", "D" + strings.Repeat("n", 511), "D" + strings.Repeat("m", 519), "D" + strings.Repeat("k", 1023)})
+	iname := fmt.Sprintf("ImportCollection(%s)", cname(dst))
+	got, e = s.run(iname, false, func() error { return s.h.DB.ImportCollection(dst, path) })
+	if !s.expect(iname, []string{OK}, got, e) {
 		return
 	}
 	nc := model.NewColl()
 	for id, d := range s.coll("src").Docs {
 		nc.Docs[id] = jsonImage(d).(map[string]any)
 	}
-	s.m.Colls["dst"] = nc
-	if !s.CompareCollection("dst", "import:content", "ImportCollection") {
+	s.m.Colls[dst] = nc
+	if !s.CompareCollection(dst, "import:content", "ImportCollection") {
 		return
 	}
-	s.Count(&model.Query{Coll: "dst"})
-	s.ListIndexes("dst")
+	s.Count(&model.Query{Coll: dst})
+	s.ListIndexes(dst)
 	if !s.CompareCollection("src", "import:source-changed", "ImportCollection") {
 		return
 	}
